@@ -22,8 +22,8 @@ M_Cids    == {"c0", "c1", "c2", "c3", "c4", "c5"}
 M_COwner  == [c \in M_Cids |-> IF c \in {"c0", "c1", "c2"} THEN "o1" ELSE IF c \in {"c3", "c4"} THEN "o2" ELSE "oa"]
 M_Names   == {"n1", "n2", "n3"}
 
-EvOf(r) == Event2(r.act, ToSet(r.S), r.c, r.v, r.nm, r.meta, r.c2, r.v2, r.nm2, r.meta2, r.o, r.k, r.amt, r.res, r.res2, r.ret,
-                 r.ntf, r.ntf2, r.xfer, r.xfer2)
+EvOf(r) == [Event2(r.act, ToSet(r.S), r.c, r.v, r.nm, r.meta, r.c2, r.v2, r.nm2, r.meta2, r.o, r.k, r.amt, r.res, r.res2, r.ret,
+                 r.ntf, r.ntf2, r.xfer, r.xfer2) EXCEPT !.kb = r.kb]
 
 ApiObs(o) ==
   [get   |-> [c \in Cids |-> o.get[c]],
@@ -45,10 +45,10 @@ Tags(r) == IF OnlyFormerAliasRecords(g') /\ \A c \in g'.dead : r.obs.strayOf[c] 
 
 SpecStep(r) ==
   LET e == EvOf(r) IN
-  /\ CASE r.act = "put"       -> Put(e.S, e.c, e.v, e.nm, e.meta)
+  /\ CASE r.act = "put"       -> Put(e.S, e.c, e.v, e.nm, e.meta, e.kb)
        [] r.act = "put2"      -> Put2(e.S, e.c, e.v, e.nm, e.meta, e.c2, e.v2, e.nm2, e.meta2)
        [] r.act = "delete"    -> Delete(e.S, e.c)
-       [] r.act = "setEACL"   -> SetEACL(e.S, e.c, e.v)
+       [] r.act = "setEACL"   -> SetEACL(e.S, e.c, e.v, e.kb)
        [] r.act = "setConfig" -> SetConfig(e.S, e.k, e.amt)
        [] r.act = "mint"      -> Mint(e.S, e.o, e.amt)
        [] r.act = "nnsReg"    -> NnsReg(e.S, e.nm, e.o)
